@@ -172,19 +172,12 @@ fn scripted() -> Vec<Case> {
     v
 }
 
-pub fn run_case(c: &Case) -> Report {
-    run_case_with(c, "")
-}
-
-fn run_scripted(c: &Case) -> Report {
-    run_case_with(c, "scripted/")
-}
-
-fn run_case_with(c: &Case, prefix: &str) -> Report {
+pub fn run_case_with(c: &Case, prefix: &str, tolerated: &[String], sticky: bool) -> Report {
     let rt = case_runtime();
     let rep = rt.block_on(async {
         let mut rep = Report::new();
         let mut run = Run::boot(&c.cfg, "c14", RunOpts { certificates: true, rows: false, client_verifier: true, signers_by_true_key: false, expect_certificate_on_honest_quorum: false }).await;
+        run.tolerated = tolerated.to_vec();
         for op in &c.ops {
             if run.violation.is_some() {
                 break;
@@ -241,8 +234,10 @@ fn run_case_with(c: &Case, prefix: &str) -> Report {
             let shape: Vec<String> = c.ops.iter().map(|o| o.kind()).collect();
             rep.nontrivial(format!("{}|{}", c.cfg.n_signers, shape.join(" ")));
         }
-        if let Some((k, w)) = run.violation.clone() {
-            rep.violation(k, w);
+        if let Some((k, w)) = run.verdict() {
+            if !sticky || run.violation.is_none() || crate::run::sticky_key(&k) {
+                rep.violation(k, w);
+            }
         }
         run.shutdown().await;
         if !prefix.is_empty() {
@@ -282,7 +277,8 @@ pub fn run(args: &Args) -> i32 {
         .shrink_iters(120);
     crate::model::warm_up(6);
     let t = check.tier;
-    check.enumerate("scripted-honest", scripted().into_iter(), false, run_scripted);
-    check.section("histories", case_strategy, t.pick(176, 6000), run_case);
+    let tolerated = crate::run::tolerated_keys(&check, args, &[]);
+    check.enumerate("scripted-honest", scripted().into_iter(), false, |c| run_case_with(c, "scripted/", &tolerated, false));
+    check.section("histories", case_strategy, t.pick(176, 6000), |c| run_case_with(c, "", &tolerated, true));
     check.finish()
 }
